@@ -501,6 +501,10 @@ func xCasePatterns(level int) []xnode {
 			add(xalt{x, y})
 			add(xseq{xg("(?<A>", x), xanchor{`\k<A>`, `\k<A>`}, y})
 			add(xseq{xg("(?<A>", xseq{x, y}), xanchor{`\k<A>`, `\k<A>`}})
+			// backreferences that are evaluated right to left: in front of the group (for RightToLeft), inside a lookbehind
+			add(xseq{xanchor{`\k<A>`, `\k<A>`}, xg("(?<A>", x), y})
+			add(xseq{xanchor{`\k<A>`, `\k<A>`}, xg("(?<A>", xseq{x, y})})
+			add(xseq{xg("(?<A>", x), y, xlook("(?<=", xseq{xanchor{`\k<A>`, `\k<A>`}, y})})
 			add(xseq{x, xlook("(?=", y)})
 			add(xseq{xlook("(?<=", x), y})
 			add(xseq{xlook("(?<!", x), y})
